@@ -183,6 +183,7 @@ fn v_cr(c: &Cr) -> V {
 struct RespObs {
     status: u16,
     cr: Option<Cr>,
+    cr_raw: Option<Vec<u8>>,
     size: Option<u64>,
     chunks: Vec<Vec<u8>>,
     err: bool,
@@ -216,13 +217,14 @@ async fn read_body(body: BoxBody) -> Result<(Vec<Vec<u8>>, bool), String> {
 async fn observe_response(res: HttpResponse<BoxBody>) -> Result<RespObs, String> {
     let status = res.status().as_u16();
     let cr = res.headers().get(header::CONTENT_RANGE).map(|v| parse_cr(v.as_bytes()));
+    let cr_raw = res.headers().get(header::CONTENT_RANGE).map(|v| v.as_bytes().to_vec());
     let body = res.into_body();
     let size = match body.size() {
         BodySize::Sized(n) => Some(n),
         _ => None,
     };
     let (chunks, err) = read_body(body).await?;
-    Ok(RespObs { status, cr, size, chunks, err })
+    Ok(RespObs { status, cr, cr_raw, size, chunks, err })
 }
 
 fn v_resp(o: &RespObs) -> V {
@@ -239,6 +241,7 @@ fn v_resp(o: &RespObs) -> V {
             V::L(chunk_positions(&o.chunks, offset as u64).into_iter().map(|(p, l)| V::T("c", vec![V::opt(p, |p| V::N(p as u128)), V::us(l)])).collect()),
             V::b(o.err),
             V::N(offset),
+            V::opt(o.cr_raw.as_ref(), V::h),
         ],
     )
 }
